@@ -1833,6 +1833,10 @@ def _quiet_after_close(ops):
     return out
 
 
+# base64 of the attachments clients send; '' = the empty bytes object
+BIN_ATTACHMENTS = ['AQID', '/v8=', 'aGVsbG8=', '', '', 'AA==']
+
+
 def gen_http_script(rng, n_ops, ws=False, zombie=False):
     """`ws`: some clients use the websocket transport (directly, or by upgrading their polling session); `zombie`:
     such clients may go on sending after the server has closed their engine.io session"""
@@ -1870,6 +1874,8 @@ def gen_http_script(rng, n_ops, ws=False, zombie=False):
         ns = rng.choice(nss) if rng.random() < 0.9 else rng.choice(HTTP_NSS)
         x = rng.random()
         s = rng.choice(HTTP_STRINGS)
+        if ws and (c in upgraded or fl[int(c[1:])] == 'ws') and rng.random() < 0.3:
+            x = 0.8          # websocket clients: more binary events (attachments travel as binary frames)
         if x < 0.35:
             return [event(ns, 'echo', rng.choice([[s], [s, 1], [{'k': s}], [[1, s]], []]))]
         if x < 0.50:
@@ -1884,8 +1890,13 @@ def gen_http_script(rng, n_ops, ws=False, zombie=False):
             if rng.random() < 0.5:
                 ack[0] += 1
                 aid = str(ack[0])
-            head = '451-' + ('' if ns == '/' else ns + ',') + aid + js(['bin', {'_placeholder': True, 'num': 0}])
-            return [head, 'b' + rng.choice(['AQID', '/v8=', 'aGVsbG8='])]
+            # (attachments may be the EMPTY bytes object: a zero-length engine.io binary packet, on a websocket a
+            # zero-length binary frame — a valid frame, not the end of the connection)
+            atts = [rng.choice(BIN_ATTACHMENTS) for _ in range(rng.choice([1, 1, 1, 2, 3]))]
+            arg = {'_placeholder': True, 'num': 0} if len(atts) == 1 else \
+                {'k%d' % n: {'_placeholder': True, 'num': n} for n in range(len(atts))}
+            head = '45%d-' % len(atts) + ('' if ns == '/' else ns + ',') + aid + js(['bin', arg])
+            return [head] + ['b' + a for a in atts]
         if x < 0.92:
             return [event(ns, 'big', [rng.choice([30, 600, 700])], with_ack=False)]
         if x < 0.96:
@@ -1960,8 +1971,15 @@ def gen_http_script(rng, n_ops, ws=False, zombie=False):
         elif x < 0.90:
             ns = rng.choice(sorted(conn.get(c, [])) or ['/'])
             # the client acknowledges (whatever id), or leaves the namespace
-            ops.append({'op': 'post', 'c': c, 'pk': [rng.choice(['43' + ('' if ns == '/' else ns + ',') + '1["got"]',
-                                                                   '41' + ('' if ns == '/' else ns + ',')])]})
+            nsp = '' if ns == '/' else ns + ','
+            if rng.random() < 0.3:
+                # a binary acknowledgement (attachments as above, the empty one included)
+                atts = [rng.choice(BIN_ATTACHMENTS) for _ in range(rng.choice([1, 1, 2]))]
+                ops.append({'op': 'post', 'c': c, 'pk': [
+                    '46%d-' % len(atts) + nsp + '1' + js([{'_placeholder': True, 'num': n} for n in range(len(atts))])]
+                    + ['b' + a for a in atts]})
+            else:
+                ops.append({'op': 'post', 'c': c, 'pk': [rng.choice(['43' + nsp + '1["got"]', '41' + nsp])]})
         elif x < 0.97:
             ops.append({'op': 'bad', 'c': c, 'kind': rng.choice(['sid', 'transport', 'version', 'jsonp', 'put', 'options',
                                                                  'options', 'not-a-packet', 'post-no-sid', 'origin',
@@ -2063,6 +2081,7 @@ def run_http_script(family, script, inst_spec=None, with_admin=False, decisions=
             return h
         pi = 0
         wss = {}
+        empty_frames = [0]       # zero-length binary frames websocket clients sent
 
         def note_ws(i, op, c, frames, final=False):
             fr = [[kind, ids.text(x) if isinstance(x, str) else x] for kind, x in frames]
@@ -2120,7 +2139,10 @@ def run_http_script(family, script, inst_spec=None, with_admin=False, decisions=
                         pi += 1
                 else:
                     for pk in op['pk']:
-                        wss[c.name].client_sends(ws_frame(pk))
+                        fr_ = ws_frame(pk)
+                        if fr_ == b'':
+                            empty_frames[0] += 1
+                        wss[c.name].client_sends(fr_)
                     hw.settle()
                 note_ws(i, op, c, wss[c.name].take())
             elif k == 'open':
@@ -2192,6 +2214,7 @@ def run_http_script(family, script, inst_spec=None, with_admin=False, decisions=
                        for ns, rs in hw.sio.manager.rooms.items() if ns != ADMIN_NS
                        for r, mem in rs.items() for s in mem)
         return {'resp': out, 'app': list(app), 'decisions': made, 'rooms': [list(x) for x in rooms],
+                'ws_empty_frames': empty_frames[0],
                 'sockets': sorted(name for name, c in clients.items() if c.sid in hw.eio.sockets)}
     finally:
         try:
@@ -2315,6 +2338,12 @@ def run_http(ctx):
                               {'part': 'http', 'family': family, 'script': small, 'inst': inst_spec,
                                'with_admin': with_admin, 'failures': b2[:5]})
                 break
+        if plain.get('ws_empty_frames'):
+            ctx.count('http.websocket.scripts_with_a_zero_length_binary_frame_from_a_client')
+            ctx.count('http.websocket.zero_length_binary_frames_from_clients', plain['ws_empty_frames'])
+        nbin = sum(1 for o in script['ops'] if o['op'] == 'post' for p in o['pk'] if p == 'b')
+        if nbin:
+            ctx.count('http.empty_binary_attachments_sent', nbin)
         for r in plain['resp']:
             fl = next((c['fl'] for c in script['clients'] if c['c'] == r['c']), None)
             ctx.count('http.response.%s.%s' % (fl, r['status'].split(' ')[0]))
